@@ -135,7 +135,7 @@ Fixpoint plan (ms: list member) (mk ik: bool) (d: inp) : string + list (member *
       end
   end.
 
-Definition trip := (member * passing * fb)%type.
+Notation trip := (member * passing * fb)%type (only parsing).
 Definition sel_pos (t: trip) : option pv :=
   match t with (_, PPos, FbSet v) => Some v | _ => None end.
 Definition sel_kw (t: trip) : option pv :=
